@@ -19,7 +19,7 @@ def handleIdTok (l : Line) : List Verdict :=
     let off : String → Option Int := fun s => match s with
       | "+60" => some (now + 60) | "-3" => some (now - 3) | "-7" => some (now - 7) | "0" => some now | "+3" => some (now + 3) | "+7" => some (now + 7) | _ => none
     let tok : Option IdToken := if sig == "noidtoken" then none else some {
-      sig := match sig with | "good" => .publishedKey | "otherkey" => .otherKey | "none" => .algNone | "hs256pub" => .symmetricWithPublic | _ => .malformed,
+      sig := match sig with | "good" => .publishedKey | "otherkey" => .otherKey | "rs512key" => .otherKey | "enckey" => .otherKey | "none" => .algNone | "hs256pub" => .symmetricWithPublic | _ => .malformed,
       iss := match iss with | "ok" => some "ISS" | "wrong" => some "https://evil.example" | _ => none,
       aud := match aud with
         | "client" => ["client-id"] | "other" => ["someone-else"] | "client+untrusted" => ["client-id", "untrusted-aud"] | "untrusted+client" => ["untrusted-aud", "client-id"]
